@@ -6,11 +6,14 @@ reg(Check(
     assumptions=[
         "the raw Int63 stream of a math/rand source is an arbitrary tape (theorems quantify over all tapes; a tape that runs out is the explicit outcome ROut)",
         "every configured value has a distinct path (the harness names them v0..vn-1)",
+        "timestamps and deltas of a configuration are int64 values (C20_ts_step_bounds)",
+        "the sync-after-first-emissions clause is about the injected marker; a configured sync value of positive value is sent as sync=true wherever the configuration puts it",
         "behaviour of UpdateQueue.Next after it has returned an error is out of scope (fake/gnmi/client.go stops at the first error)",
         "enable_delay only sleeps and is not modelled",
     ],
     modelled=["testing/fake/queue/queue.go: New, Add, Latest, Next, addValue, newValue, nextValue, updateTimestamp, update{Int,Uint,Double,String,StringList,Bool}Value; "
-              "testing/fake/gnmi/client.go: reset (random generator arm), processQueue/valToResp projection; "
+              "testing/fake/queue/fixed_queue.go: NewFixed, Add, Next (slice sharing with the configuration; delays not modelled); "
+              "testing/fake/gnmi/client.go: reset (random and fixed arms, also through a Poll), processQueue/valToResp projection; "
               "math/rand Int63n, Int31n, Intn, int31n, Float64, Shuffle (ported, validated by correspondence)"],
     extra_trusted=["Coq.Floats.FloatAxioms (stdlib specification of primitive binary64) under the double-valued clause of C20_in_range only",
                    "amd64 (GOAMD64=v1): float64 x*y+z is not fused by the Go compiler"],
